@@ -262,3 +262,393 @@ pub fn copy_from_slice_len_safe(s: &[u8]) -> [u8; 16] {
     }
     a
 }
+
+pub fn chunk_index_panics(s: &[u8]) -> Vec<u8> {
+    s.chunks_exact(2).map(|c| c[2]).collect()
+}
+
+pub fn chunk_index_safe(s: &[u8]) -> Vec<u8> {
+    s.chunks_exact(2).map(|c| c[1]).collect()
+}
+
+pub struct Small(usize);
+impl Small {
+    pub fn try_new(x: usize) -> Option<Small> {
+        if x < 10 {
+            Some(Small(x))
+        } else {
+            None
+        }
+    }
+}
+pub fn invariant_index_safe(a: &[u8; 10], i: Small) -> u8 {
+    a[i.0]
+}
+
+pub struct Leaky(usize);
+impl Leaky {
+    pub fn try_new(x: usize) -> Option<Leaky> {
+        if x < 10 {
+            Some(Leaky(x))
+        } else {
+            None
+        }
+    }
+    pub fn raw(x: usize) -> Leaky {
+        Leaky(x)
+    }
+}
+pub fn invariant_index_leaky_panics(a: &[u8; 10], i: Leaky) -> u8 {
+    a[i.0]
+}
+
+const TABLE: [usize; 4] = [1, 2, 3, 9];
+pub fn table_value_index_panics(a: &[u8; 8], i: usize) -> u8 {
+    a[TABLE[i & 3]]
+}
+pub fn table_value_index_safe(a: &[u8; 10], i: usize) -> u8 {
+    a[TABLE[i & 3]]
+}
+
+pub fn range_loop_safe(v: &[u8]) -> u8 {
+    let mut acc = 0;
+    for i in 0..v.len() {
+        acc ^= v[i];
+    }
+    acc
+}
+
+pub fn range_loop_inclusive_panics(v: &[u8]) -> u8 {
+    let mut acc = 0;
+    for i in 0..=v.len() {
+        acc ^= v[i];
+    }
+    acc
+}
+
+pub fn byte_index_safe(a: &[u8; 256], b: u8) -> u8 {
+    a[usize::from(b)]
+}
+
+pub fn byte_index_panics(a: &[u8; 255], b: u8) -> u8 {
+    a[usize::from(b)]
+}
+
+pub struct Pkt {
+    id: Option<u8>,
+    data: Vec<u8>,
+}
+impl Pkt {
+    pub fn empty() -> Pkt {
+        Pkt { id: None, data: Vec::new() }
+    }
+    pub fn full(id: u8, data: Vec<u8>) -> Pkt {
+        Pkt { id: Some(id), data }
+    }
+    pub fn id(&self) -> Option<u8> {
+        self.id
+    }
+    pub fn data(&self) -> &[u8] {
+        &self.data
+    }
+}
+pub fn some_unless_empty_safe(p: &Pkt) -> u8 {
+    if p.data().is_empty() {
+        return 0;
+    }
+    p.id().unwrap()
+}
+
+pub struct Pkt2 {
+    id: Option<u8>,
+    data: Vec<u8>,
+}
+impl Pkt2 {
+    pub fn empty() -> Pkt2 {
+        Pkt2 { id: None, data: Vec::new() }
+    }
+    pub fn anonymous(data: Vec<u8>) -> Pkt2 {
+        Pkt2 { id: None, data }
+    }
+    pub fn id(&self) -> Option<u8> {
+        self.id
+    }
+    pub fn data(&self) -> &[u8] {
+        &self.data
+    }
+}
+pub fn some_unless_empty_third_ctor_panics(p: &Pkt2) -> u8 {
+    if p.data().is_empty() {
+        return 0;
+    }
+    p.id().unwrap()
+}
+
+pub struct Bag {
+    sent: Vec<u8>,
+    flagged: Vec<u8>,
+    vals: Vec<u16>,
+}
+impl Bag {
+    pub fn sent(&self) -> &[u8] {
+        &self.sent
+    }
+    pub fn flagged(&self) -> &[u8] {
+        &self.flagged
+    }
+    pub fn value_of(&self, c: u8) -> Option<u16> {
+        if let Some(i) = self.sent.iter().position(|x| *x == c) {
+            Some(self.vals.get(i).copied().unwrap_or(0))
+        } else {
+            None
+        }
+    }
+}
+pub fn member_lookup_safe(b: &Bag) -> u16 {
+    let mut acc = 0u16;
+    for &c in b.sent() {
+        acc ^= b.value_of(c).unwrap();
+    }
+    acc
+}
+pub fn member_lookup_other_field_panics(b: &Bag) -> u16 {
+    let mut acc = 0u16;
+    for &c in b.flagged() {
+        acc ^= b.value_of(c).unwrap();
+    }
+    acc
+}
+
+pub fn saturating_then_index_panics(s: &[u8], n: usize) -> u8 {
+    let k = n.saturating_sub(2);
+    s[k]
+}
+
+pub fn rem_index_safe(a: &[u8; 4], n: usize) -> u8 {
+    a[n % 4]
+}
+
+pub fn rem_index_panics(a: &[u8; 4], n: usize) -> u8 {
+    a[n % 5]
+}
+
+pub fn range_loop_pop_panics(mut v: Vec<u8>) -> u8 {
+    let mut acc = 0;
+    for i in 0..v.len() {
+        acc ^= v[i];
+        v.pop();
+    }
+    acc
+}
+
+pub fn len_guard_then_pop_panics(mut v: Vec<u8>) -> u8 {
+    if v.len() < 2 {
+        return 0;
+    }
+    v.pop();
+    v.pop();
+    v[0]
+}
+
+pub fn len_guard_then_push_safe(mut v: Vec<u8>) -> u8 {
+    if v.len() < 2 {
+        return 0;
+    }
+    v.push(1);
+    v[1]
+}
+
+pub fn swap_remove_after_guard_safe(mut v: Vec<u8>) -> u8 {
+    if v.is_empty() {
+        return 0;
+    }
+    v.swap_remove(0)
+}
+
+pub fn swap_remove_twice_panics(mut v: Vec<u8>) -> u8 {
+    if v.is_empty() {
+        return 0;
+    }
+    v.swap_remove(0);
+    v.swap_remove(0)
+}
+
+pub fn option_take_then_unwrap_panics(x: u8) -> u8 {
+    let mut o = Some(x);
+    o.take();
+    o.unwrap()
+}
+
+fn bump(x: &mut usize) {
+    *x += 10;
+}
+
+pub fn int_mutated_through_ref_panics(a: &[u8; 8]) -> u8 {
+    let mut i = 3usize;
+    bump(&mut i);
+    a[i]
+}
+
+pub fn int_reassigned_panics(a: &[u8; 8], c: bool) -> u8 {
+    let mut i = 3usize;
+    if c {
+        i = 9;
+    }
+    a[i]
+}
+
+pub fn int_reassigned_safe(a: &[u8; 8], c: bool) -> u8 {
+    let mut i = 3usize;
+    if c {
+        i = 7;
+    }
+    a[i]
+}
+
+pub struct Cur {
+    pos: usize,
+}
+pub fn field_mutated_panics(a: &[u8; 8], c: &mut Cur) -> u8 {
+    if c.pos >= 8 {
+        return 0;
+    }
+    c.pos += 1;
+    a[c.pos]
+}
+
+pub fn field_guarded_safe(a: &[u8; 8], c: &Cur) -> u8 {
+    if c.pos >= 8 {
+        return 0;
+    }
+    a[c.pos]
+}
+
+pub fn slice_reborrow_shrinks_panics(s: &[u8]) -> u8 {
+    let mut t = s;
+    if t.len() < 4 {
+        return 0;
+    }
+    t = &t[3..];
+    t[1]
+}
+
+pub fn advance_cursor_panics(input: &mut &[u8]) -> u8 {
+    if input.len() < 2 {
+        return 0;
+    }
+    *input = &input[2..];
+    input[0]
+}
+
+pub fn loop_accumulate_index_panics(a: &[u8; 16], s: &[u8]) -> u8 {
+    let mut k = 0usize;
+    for x in s {
+        k += usize::from(*x & 1);
+    }
+    a[k]
+}
+
+pub fn loop_incr_then_index_panics(a: &[u8]) -> u8 {
+    let mut i = 0;
+    let mut acc = 0;
+    while i < a.len() {
+        i += 1;
+        acc ^= a[i];
+    }
+    acc
+}
+
+pub fn loop_index_then_incr_safe(a: &[u8]) -> u8 {
+    let mut i = 0;
+    let mut acc = 0;
+    while i < a.len() {
+        acc ^= a[i];
+        i += 1;
+    }
+    acc
+}
+
+pub struct Grow(usize);
+impl Grow {
+    pub fn try_new(x: usize) -> Option<Grow> {
+        if x < 10 {
+            Some(Grow(x))
+        } else {
+            None
+        }
+    }
+    pub fn inc(&mut self) {
+        self.0 += 1;
+    }
+}
+pub fn invariant_broken_by_method_panics(a: &[u8; 10], i: &Grow) -> u8 {
+    a[i.0]
+}
+
+pub struct Buf {
+    data: Vec<u8>,
+}
+impl Buf {
+    pub fn new(s: &[u8]) -> Option<Buf> {
+        if s.len() < 4 {
+            return None;
+        }
+        Some(Buf { data: s.to_vec() })
+    }
+    pub fn shrink(&mut self) {
+        self.data.clear();
+    }
+    pub fn third(&self) -> u8 {
+        self.data[3]
+    }
+}
+pub fn vec_invariant_broken_by_method_panics(b: &Buf) -> u8 {
+    b.third()
+}
+
+pub struct Buf2 {
+    data: Vec<u8>,
+}
+impl Buf2 {
+    pub fn new(s: &[u8]) -> Option<Buf2> {
+        if s.len() < 4 {
+            return None;
+        }
+        Some(Buf2 { data: s.to_vec() })
+    }
+    pub fn third(&self) -> u8 {
+        self.data[3]
+    }
+}
+pub fn vec_invariant_safe(b: &Buf2) -> u8 {
+    b.third()
+}
+
+pub fn position_then_clear_panics(mut v: Vec<u8>) -> u8 {
+    if let Some(i) = v.iter().position(|x| *x == 7) {
+        v.clear();
+        return v[i];
+    }
+    0
+}
+
+pub fn position_index_safe(v: &[u8]) -> u8 {
+    if let Some(i) = v.iter().position(|x| *x == 7) {
+        return v[i];
+    }
+    0
+}
+
+pub fn two_slices_same_len_name_panics(a: &[u8], b: &[u8]) -> u8 {
+    if a.len() < 3 {
+        return 0;
+    }
+    b[2]
+}
+
+pub fn nested_option_unwrap_panics(a: Option<Option<u8>>) -> u8 {
+    if a.is_some() {
+        return a.unwrap().unwrap();
+    }
+    0
+}
